@@ -152,3 +152,12 @@ Theorem c04_inflight_absent_refuted :
   /\ inflight_truth 512 524288 wjob = Some 0.
 Proof. exact inflight_absent_unfixed. Qed.
 Print Assumptions c04_inflight_absent_refuted.
+
+(* why the bounded inflight-job scan is excluded above: in the model a faithful sidecar with an
+   unparsable line of another length just outside the byte window gives a shorter window than the
+   rebuilt sidecar does (not reached on the real code through the public API: notes/cache.md) *)
+Theorem c04_inflight_window_model_refuted :
+  valid_log wjob3 = true /\ FullFaithful wjob3 wshift
+  /\ inflight_fast 512 20 wshift wjob3 = None /\ inflight_truth 512 20 wjob3 = Some 0.
+Proof. exact inflight_window_shift. Qed.
+Print Assumptions c04_inflight_window_model_refuted.
